@@ -93,7 +93,13 @@ impl SfTag {
     pub(crate) fn from_optional_cow(tag: &Option<Cow<Tag>>) -> SfTag {
         match tag {
             Some(cow) => {
-                let key = cow.to_string();
+                // A verbatim tag (`!<tag:yaml.org,2002:str>`) has an empty handle and the whole
+                // tag in its suffix; `Display` would put a `!` in front of it.
+                let key = if cow.handle.is_empty() {
+                    cow.suffix.clone()
+                } else {
+                    cow.to_string()
+                };
                 TAG_LOOKUP_MAP
                     .get(key.as_str())
                     .copied()
